@@ -108,6 +108,7 @@ def run(ctx):
 
     _check_unchecked_callers(ctx, prog, gated_entries)
     _check_primitives(ctx, prog)
+    _check_handover(ctx, prog)
 
 
 def _check_gated(ctx, prog, table, key, e, gate):
@@ -338,3 +339,64 @@ def _check_primitives(ctx, prog):
             ctx.ob("auth-primitive:authority:" + short_path(g.impl["self"], 1), okk,
                    "authority() of %s returns field `%s`, which is a Signer: %s" % (short_path(g.impl["self"], 1), fld, okk), where=g.where())
     ctx.floor("authority-impls", n, 98)
+
+
+# Two-step handovers of the privileged identities: who may write the identity fields, and with which value.
+HANDOVER = [
+    # (adt regex, field, {writer fn.short: regex the stored value's provenance must match})
+    (r"gmsol_store::states::store::Store$", "authority",
+     {"Store::init": r"^authority$", "Store::update_authority": r"^self\.next_authority$"}),
+    (r"gmsol_store::states::store::Store$", "next_authority",
+     {"Store::init": r"^authority$", "Store::set_next_authority": r"^next_authority$"}),
+    (r"gmsol_store::states::store::Treasury$", "receiver",
+     {"Treasury::init": r"^receiver$", "Treasury::update_receiver": r"^self\.next_receiver$"}),
+    (r"gmsol_store::states::store::Treasury$", "next_receiver",
+     {"Treasury::init": r"^receiver$", "Treasury::set_next_receiver": r"^next_receiver$"}),
+    (r"gmsol_liquidity_provider::GlobalState$", "authority",
+     {"gmsol_liquidity_provider::initialize": r"^Key::key\(ctx\.accounts\.authority\)$",
+      "gmsol_liquidity_provider::accept_authority": r"^Key::key\(ctx\.accounts\.pending_authority\)$"}),
+    (r"gmsol_liquidity_provider::GlobalState$", "pending_authority",
+     {"gmsol_liquidity_provider::initialize": r"^Default::default\(\)$",
+      "gmsol_liquidity_provider::transfer_authority": r"^new_authority$",
+      "gmsol_liquidity_provider::accept_authority": r"^Default::default\(\)$"}),
+]
+
+
+def _check_handover(ctx, prog):
+    """A3(a): the admin / receiver / LP-authority identity fields are written only by the tabled functions and only
+    with the tabled value (the accepted identity is the nominated one; a completed handover leaves no stale nominee
+    that could accept again)."""
+    from .. import analyses as A
+    ctx.rule("identity-writes", "privileged identity fields (store authority/next_authority, treasury receiver/next_receiver, "
+             "LP authority/pending_authority) are written only by the tabled functions, by plain assignment of the tabled value")
+    n = 0
+    for adt_re, field, writers in HANDOVER:
+        ws = A.writers_of_field(prog, adt_re, field)
+        seen = set()
+        for w in ws:
+            n += 1
+            fs = w["fn"].short
+            key = "identity-writes:%s.%s:%s" % (adt_re.split("::")[-1].rstrip("$"), field, fs)
+            want = writers.get(fs)
+            if want is None:
+                ctx.ob(key, False, "%s writes %s.%s but is not a tabled writer of that identity field (%s)" % (
+                    fs, adt_re.split("::")[-1].rstrip("$"), field, w["kind"]), where=w["fn"].where(w["line"]))
+                continue
+            seen.add(fs)
+            okv = w["kind"] == "assign" and w["value"] is not None and re.search(want, str(w["value"])) is not None
+            ctx.ob(key, okv, "%s stores `%s` into %s (expected /%s/, by assignment; found %s)" % (
+                fs, w["value"], field, want, w["kind"]), where=w["fn"].where(w["line"]))
+        for fs in writers:
+            if fs not in seen:
+                ctx.ob("identity-writes:%s.%s:%s" % (adt_re.split("::")[-1].rstrip("$"), field, fs), False,
+                       "tabled writer %s no longer assigns %s (anchor missing)" % (fs, field), where="(anchor)")
+    ctx.floor("identity-writes", n, 13)
+    # guards of the accepting step: authority != next (a completed handover cannot be replayed)
+    for fpat, a, b in ((r"states::store::Store::update_authority", r"self\.authority", r"self\.next_authority"),
+                       (r"states::store::Treasury::update_receiver", r"self\.receiver", r"self\.next_receiver")):
+        f = ctx.fn(fpat)
+        if not f:
+            continue
+        ws = [w for w in A.field_writes(f, r"^self\.") if w["kind"] == "assign"]
+        ok = bool(ws) and all(A.has_fact(A.cmp_facts(f, w["bb"]), "!=", a, b) for w in ws)
+        ctx.ob("identity-writes:guard:" + f.short, ok, "%s assigns only under the fact %s != %s" % (f.short, a, b), where=f.where())
